@@ -66,13 +66,13 @@ Fixpoint jwf (t : jtree) : Prop :=
 Lemma escd_skippable s e : escd s e -> skippable_str e.
 Proof. intros [Vs Es] K. apply (burn_string_escaped s e K Vs Es). Qed.
 
-(* what may follow a value: not a number character, not white space *)
-Definition vfollow (K : bytes) : Prop := exists c r, K = c :: r /\ (c = 44 \/ c = 93 \/ c = 125).
+(* what may follow a value: anything that is not a number character (a comma, a closing bracket or brace, white space) *)
+Definition vfollow (K : bytes) : Prop := exists c r, K = c :: r /\ is_number_char c = false.
 
 Lemma burn_number_run n K : Forall (fun c => is_number_char c = true) n -> vfollow K -> burn_number (n ++ K) = K.
 Proof.
   intros Hn [c [r [-> Hc]]]. induction Hn as [|x n Hx _ IH]; cbn [app burn_number].
-  - destruct Hc as [->|[->| ->]]; reflexivity.
+  - rewrite Hc. reflexivity.
   - rewrite Hx. exact IH.
 Qed.
 
@@ -156,7 +156,7 @@ Proof.
         rewrite (eat_ws_commas_value x _ Hx). destruct (jtext_head x Hx) as [c [rr [E [_ [_ [H93 _]]]]]]. rewrite E. cbn [app].
         replace (c =? 93) with false by (symmetry; apply N.eqb_neq; exact H93). rewrite app_comm_cons, <- E.
         rewrite (IHv x depth _ Hx ltac:(lia) ltac:(lia)).
-        2:{ destruct r; eexists _, _; split; try reflexivity; auto. }
+        2:{ destruct r; eexists _, _; split; reflexivity. }
         cbn [bind]. destruct r as [|y r'].
         -- destruct f as [|f']; [lia|]. cbn [burn_array]. rewrite eat_ws_commas_stop by (try reflexivity; lia). change (93 =? 93) with true. reflexivity.
         -- assert (Hb : burn_array f depth (44 :: atext jtext (y :: r') K) = burn_array f depth (atext jtext (y :: r') K)).
@@ -174,7 +174,7 @@ Proof.
         rewrite E. cbn [app]. rewrite eat_colon_ws_lit by exact Hws. cbn [bind].
         rewrite app_comm_cons, <- E.
         rewrite (IHv v depth _ Hv ltac:(lia) ltac:(lia)).
-        2:{ destruct r; eexists _, _; split; try reflexivity; auto. }
+        2:{ destruct r; eexists _, _; split; reflexivity. }
         cbn [bind]. destruct r as [|y r'].
         -- destruct f as [|f']; [lia|]. cbn [burn_object]. rewrite eat_ws_commas_stop by (try reflexivity; lia). change (125 =? 125) with true. reflexivity.
         -- assert (Hb : burn_object f depth (44 :: otext jtext (y :: r') K) = burn_object f depth (otext jtext (y :: r') K)).
@@ -241,6 +241,31 @@ Proof.
   rewrite app_comm_cons, <- E.
   apply burn_value_skips; [exact Hv| |lia|exact HK].
   destruct (jsize_le_text v Hv) as [Hs _]. unfold burn_fuel. rewrite !app_length. cbn [length]. rewrite !app_length.
+  assert (length (c :: rr) = length (jtext v)) by (rewrite E; reflexivity). cbn [length] in *. lia.
+Qed.
+
+(* white space *)
+Definition wsb (w : bytes) : Prop := Forall (fun c => is_ws c = true) w.
+Lemma eat_ws_app w c r : wsb w -> is_ws c = false -> eat_ws (w ++ c :: r) = c :: r.
+Proof.
+  intros Hw Hc. induction Hw as [|x w Hx _ IH]; cbn [app eat_ws]; [rewrite Hc; reflexivity | rewrite Hx; exact IH].
+Qed.
+Lemma eat_colon_ws_gen w2 w3 c r : wsb w2 -> wsb w3 -> is_ws c = false ->
+  eat_colon_ws (w2 ++ 58 :: w3 ++ c :: r) = Ok (c :: r).
+Proof.
+  intros H2 H3 Hc. unfold eat_colon_ws. rewrite (eat_ws_app w2 58) by (try assumption; reflexivity).
+  cbn [verify_char]. change (58 =? 58) with true. cbv iota. cbn [bind]. rewrite eat_ws_app by assumption. reflexivity.
+Qed.
+
+(* the same with white space between the key and the colon and between the colon and the value *)
+Theorem burn_member_skips_ws key w2 w3 v K : skippable_str key -> wsb w2 -> wsb w3 -> jwf v -> jdepth v <= 128 -> vfollow K ->
+  burn_member (key ++ 34 :: w2 ++ 58 :: w3 ++ jtext v ++ K) = Ok K.
+Proof.
+  intros Hk H2 H3 Hv Hd HK. unfold burn_member. rewrite (Hk _). cbn [bind].
+  destruct (jtext_head v Hv) as [c [rr [E [Hws _]]]]. rewrite E. cbn [app]. rewrite eat_colon_ws_gen by assumption. cbn [bind].
+  change (c :: rr ++ K) with ((c :: rr) ++ K). rewrite <- E.
+  apply burn_value_skips; [exact Hv| |lia|exact HK].
+  destruct (jsize_le_text v Hv) as [Hs _]. unfold burn_fuel. rewrite !app_length. cbn [length]. rewrite !app_length. cbn [length]. rewrite !app_length.
   assert (length (c :: rr) = length (jtext v)) by (rewrite E; reflexivity). cbn [length] in *. lia.
 Qed.
 
